@@ -67,13 +67,16 @@ func checksum(table []byte) uint32 {
 	// "To accommodate data with a length that is not a multiple of four,
 	// the above algorithm must be modified to treat the data as though
 	// it contains zero padding to a length that is a multiple of four."
-	if r := len(table) % 4; r != 0 {
-		table = append(table, make([]byte, r)...)
-	}
-
 	var sum uint32
-	for i := 0; i < len(table)/4; i++ {
+	n := len(table) / 4
+	for i := 0; i < n; i++ {
 		sum += binary.BigEndian.Uint32(table[i*4:])
+	}
+	if len(table)%4 != 0 {
+		// pad a copy of the last bytes, so that the caller's buffer is left untouched
+		var last [4]byte
+		copy(last[:], table[n*4:])
+		sum += binary.BigEndian.Uint32(last[:])
 	}
 
 	return sum
